@@ -83,11 +83,11 @@ TIERS = {
         chunks={"gen:sem": 2, "gen:hist": 2, "random": 1},
     ),
     "thorough": dict(
-        sem_gen=[dict(MaxRules=2, SvcInts='{"", "deny", "read", "write"}', NameCount=5, Fams=None),
+        sem_gen=[dict(MaxRules=2, SvcInts='{"", "deny", "write"}', NameCount=5, Fams=None),
                  dict(MaxRules=3, SvcInts='{"", "write"}', NameCount=3, Fams='{"key", "service", "node"}')],
         hist_gen=[dict(MaxDepth=2, NC=(4, 4, 2), both_vias=True),
                   dict(MaxDepth=3, NC=(3, 2, 1), both_vias=False)],
-        sem_mc=None, hist_mc=dict(MaxDepth=3, NC=(5, 4, 2)),
+        sem_mc=None, hist_mc=dict(MaxDepth=3, NC=(4, 4, 2)),
         rnd=dict(n=200, length=12),
         chunks={"gen:sem": 5, "gen:hist": 10, "random": 4},
     ),
